@@ -53,6 +53,7 @@ def judge(ex, limit):
     first = unproven[0]
     first_name = NAME[first['status']] if first['status'] != 1 else 'Not Solved'
     unsolved = any(e['status'] == 0 or (e['status'] == 1 and e['sol_status'] != 1) for e in unproven)
+    first_unsolved = first['status'] == 0 or (first['status'] == 1 and first['sol_status'] != 1)
     total = None
     try:
         mdl = ex['solver'].model
@@ -76,8 +77,10 @@ def judge(ex, limit):
                 nm, shown[:4], first['ordinal'], NAME[first['status']], first['sol_status'], pr['status'] or ('Timeout' if pr['timeout'] else None))))
             continue
         shown = 'Timeout' if pr['timeout'] is not None else pr['status']
-        if timeout_due:
-            ok = shown in ('Timeout', first_name)
+        if timeout_due and first_unsolved:
+            ok = shown == 'Timeout'          # "Timeout when ... left unsolved"
+        elif timeout_due:
+            ok = shown in ('Timeout', first_name)   # both clauses apply: either display
         else:
             ok = shown == first_name
         if not ok:
